@@ -32,7 +32,38 @@ def bloom_fp_oracle(tier, seed, tracegen, sh):
     return {"report": {"kind": "implementation-vs-oracle test (not a proof)", "rows": rows}, "failures": failures, "gen": gen}
 
 
+def policy_job(fields):
+    return {"name": "policy", "driver": "policy", "fields": fields,
+            "gen": lambda tier, seed: ["policy", "--seed", str(seed), "--ops", "300" if tier == "quick" else "1500",
+                                       "--lives", "30" if tier == "quick" else "120"],
+            "seeds": {"quick": 1, "thorough": 12}}
+
+
+POLICY_BRANCHES = ["add.oversize", "add.room", "add.update", "add.evict.1", "add.evict.2", "add.evict.3", "add.reject.0",
+                   "add.reject.1", "add.tie", "add.fewer_than_samples", "add.over_budget_before", "remove.charged",
+                   "remove.absent", "update.charged", "update.absent", "maxcost", "maxcost.below_used", "clear", "cost", "cap"]
+
 PROPS = {
+    "C01": {
+        "module": "StrettoModel.Props.C01",
+        "jobs": [policy_job(r"^pol\.(add|add\.state|remove|update|clear|maxcost|cost|cap)$")],
+        "branches": POLICY_BRANCHES,
+        "assumptions": [
+            "i64 costs are modelled by unbounded Int under Dom: costs >= 0 and no i64 overflow of cost + item_size or of the running sum",
+            "every LFUPolicy method holds the policy mutex for its whole body, so thread schedules reduce to sequences of method calls; update_max_cost's atomic store racing an add in progress is modelled as before-or-after",
+            "HashMap iteration order and sketch estimates enter the model as oracle inputs observed from the implementation (guards checked by the driver)",
+        ],
+    },
+    "C07": {
+        "module": "StrettoModel.Props.C07",
+        "jobs": [policy_job(r"^pol\.(add|add\.state)$")],
+        "branches": POLICY_BRANCHES,
+        "assumptions": [
+            "popularity estimates are an arbitrary function in the theorems; the implementation's values are observed inside the loop through the cfg-gated observer (estimates of every sample entry and of the newcomer)",
+            "what fill_sample appends at each iteration is an oracle input (HashMap iteration order), checked against the guard validRefill by the driver",
+            "termination of the loop is not part of these theorems (the model loop is driven by the observed iterations)",
+        ],
+    },
     "C13": {
         "module": "StrettoModel.Props.C13",
         "jobs": [
